@@ -106,6 +106,24 @@ def gen_pairs(ctx, n):
     for (x, y) in [([5, 1], [5, True]), ([0, 'a'], [False, 'a']), ([{1}], [frozenset({1})]), ([5, {1, 2}], [5, frozenset({1, 2})]), ({'k': [3, 1]}, {'k': [3, True]}),
                    ([1, 2, 3], [True, 2, 3])]:          # not tuples such as (1, 2) / (True, 2): they are == and share one entry of the hashes table (NoNumAlias)
         out.append((x, y))
+    # a dictionary inside an order-ignored list whose later value holds the very object that is an earlier key's value (small ints, interned
+    # strings, None): dropping or changing that inner member is a difference
+    for _ in range(max(6, n // 8)):
+        v = ctx.rng.choice([1, 2, 'a', None, 0])
+        w = ctx.rng.choice([3, 5, 'b', 'ab'])
+        d1 = {'a': v, 'b': [v, w], 'c': {'k': v}}
+        d2 = copy.deepcopy(d1)
+        r = ctx.rng.random()
+        if r < 0.4:
+            d2['b'] = [w]
+        elif r < 0.7:
+            d2['b'] = [w, w]
+        else:
+            d2['c'] = {'k': w}
+        other = ctx.rng.choice([[7], {'z': 9}, 'q'])
+        x, y = [d1, other], [other, d2]
+        if FAM.in_universe(x, y):
+            out.append((x, y))
     # same support, same length, different multiplicities (and the same lists nested one level down)
     pool = [0, 1, 2, 'a', 'b', None, 1.5, (1, 2), [3], {'k': 1}]
     for _ in range(max(6, n // 6)):
